@@ -52,7 +52,10 @@ func (x *Exec) stepCall(st *State, fr *Frame, call *ssa.Call) ([]*State, bool) {
 }
 
 func (x *Exec) callFunc(st *State, fr *Frame, call *ssa.Call, callee *ssa.Function, bindings []Val, args []Val) ([]*State, bool) {
-	if spec := x.DB.Funcs[funcKey(callee)]; spec != nil && !spec.Inline {
+	// inside a comparator summary (evaluated under bound variables) calls must be inlined: a contract's fresh result
+	// constant would be shared by all instances of the bound variables
+	pureInline := x.pure != nil && callee.Blocks != nil && !x.info(callee).hasLoops && len(st.frames) < 8
+	if spec := x.DB.Funcs[funcKey(callee)]; spec != nil && !spec.Inline && !pureInline {
 		if callee == x.vc.fn && len(st.frames) == 1 {
 			// recursion: use own contract
 		}
@@ -71,7 +74,7 @@ func (x *Exec) callFunc(st *State, fr *Frame, call *ssa.Call, callee *ssa.Functi
 			recursive = true
 		}
 	}
-	if x.shouldInline(callee) && depth < 6 && !recursive {
+	if (x.shouldInline(callee) || pureInline) && depth < 8 && !recursive {
 		nf := &Frame{id: x.nextFrameID(), fn: callee, vals: map[ssa.Value]Val{}, open: map[*Loop]bool{}, callIns: call, depth: depth}
 		for i, p := range callee.Params {
 			nf.vals[p] = args[i]
@@ -216,6 +219,25 @@ func (x *Exec) topReturn(st *State, fr *Frame, rs []Val, ins *ssa.Return) {
 		}
 	}
 	src := x.prog.Fset.Position(ins.Pos()).String()
+	if len(vc.spec.ReturnHints) > 0 {
+		henv := x.entryEnv(st)
+		henv.fr = fr
+		for k, v := range env.vars {
+			henv.vars[k] = v
+		}
+		for i, c := range vc.spec.ReturnHints {
+			label := c.Label
+			if label == "" {
+				label = fmt.Sprintf("%d", i+1)
+			}
+			rv := x.revealAxioms(henv, c.Reveal)
+			t := x.evalBool(henv, c.E)
+			side := append(rv, henv.takeSide()...)
+			x.oblige(st, "returnhint", label, c.Props, t, c.Src+" @ "+src, side...)
+			st.assume(And(henv.takeSide()...))
+			st.assume(t)
+		}
+	}
 	for i, c := range vc.spec.Ensures {
 		label := c.Label
 		if label == "" {
